@@ -44,8 +44,11 @@ PROP = {
                   "utxo entries after the block, window probes, reorganisations across the edge) is compared with the real node on every produced block.",
     "level_note": "On the pinned tree the property holds only while the payout multiplier is 1 and no output is dust: with multiplier >= 2 the node rejects (or "
                   "panics on) its own block and the ATR input does not spend the original; dust-collected outputs stay spendable (no window test). These are "
-                  "known findings; the check passes with KNOWN-FINDING lines and reports any failure outside the listed classes. NFT (Bound) triples are not "
-                  "modelled and not generated.",
+                  "known findings; the check passes with KNOWN-FINDING lines and reports any failure outside the listed classes. NFT (Bound) triples: the cut of one transaction's collected outputs into single outputs and "
+                  "triples (AtrScan.scan) and the amounts per group (AtrScan.payloads / acct: what comes back, what is collected, the contributions to the block's "
+                  "totals) are modelled and proved for every list of outputs (Saito.C13.Scan.*, Saito.C13.Amounts.*) and compared with the real blocks of the "
+                  "triple histories (with and without fees; amounts for multiplier 1 only — the 5 % cap branch is not followed per transaction); keys, window "
+                  "positions and the utxo effects of a triple's rebroadcast are covered by direct monitors only.",
     "lean_modules": ["Saito.Props.C13"],
     "suites": ["atr"],
     "relevant": lambda op, a, b: True,
@@ -59,8 +62,9 @@ PROP = {
             "line (outputs of block n-gp-1, edge utxo, previous header values -> ATR transactions, fees, payout, slips, validator's values and hash agreement, "
             "verdict, expired utxo entries afterwards), up to 4 `probe` lines (Transaction::validate of a spend of an output of blocks tip-gp-2, tip-gp-1 and of "
             "the oldest utxo entry), one `reorg` line per fork. non-trivial = block whose ATR section rebroadcast or dust-collected something or was not accepted, "
-            "every probe, every adopted fork. quick: 10 seeds per cell, thorough: 60.",
-    "assumptions": ["NFT (Bound) triples are outside model and generator (single-slip ATR only)",
+            "every probe, every adopted fork. quick: 10 seeds per cell, thorough: 60. Triple histories: a bound triple created in block 2 and carried around the window three "
+            "times, gp in {4,5,7} without fees and gp in {4,6} with a fee-paying payment in every block (rebroadcast fee above 0): `scan` and `acct` lines per wrap.",
+    "assumptions": ["the block-level model (Saito.Atr) covers single-slip rebroadcasts; bound triples are modelled per transaction (AtrScan) and otherwise monitored",
                     "amounts stay far below 2^64 / multiplier (no u64 overflow in amount*multiplier); (t as f64 * 0.05) as u64 = t/20 for the treasuries reached",
                     "utxo keys of distinct outputs of one block are distinct (they embed tx ordinal and slip index) — hypothesis `Nodup` of the theorems",
                     "the commitment hash is injective on the list of (input owner/amount/index/type, output owner/amount, payload) tuples",
